@@ -6,13 +6,23 @@
 PID=$1; WT=$2; D=$3; NAME=$4; NOST=${5:-}
 OUT=/verif/seeded/$PID/$NAME
 mkdir -p $OUT
-cp $D/patch.diff $D/demo.cpp $OUT/ 2>/dev/null; cp $D/notes.md $OUT/notes.md 2>/dev/null
-build() { (cd $D && g++ -std=gnu++20 -fno-access-control -DNDEBUG -w -I$WT/include -I$WT -I/repo/_build/include -I/repo/_build -I$WT/src/smpi/include -I/usr/include/eigen3 demo.cpp -o /tmp/demo_$PID_$NAME -L/repo/_build/lib -lsimgrid -Wl,-rpath,/repo/_build/lib 2>&1 | tail -5); }
+cp $D/patch.diff $D/demo.cpp $OUT/ 2>/dev/null; cp $D/notes.md $D/build.sh $D/build_and_run.sh $D/*.hpp $OUT/ 2>/dev/null
+EXE=/tmp/demo_${PID}_$NAME
+build() {
+  rm -f $EXE $D/demo
+  if [ -f $D/build_and_run.sh ]; then return 0; fi
+  if [ -f $D/build.sh ]; then (cd $D && sh ./build.sh > /tmp/demo_build_$PID.log 2>&1; [ -f demo ] && cp demo $EXE); else
+  (cd $D && g++ -std=gnu++20 -fno-access-control -DNDEBUG -w -I$WT/include -I$WT -I/repo/_build/include -I/repo/_build -I$WT/src/smpi/include -I/usr/include/eigen3 demo.cpp -o $EXE -L/repo/_build/lib -lsimgrid -Wl,-rpath,/repo/_build/lib 2>&1 | tail -5); fi
+}
+rundemo() { # $1 = output file
+  if [ -f $D/build_and_run.sh ]; then (cd $D && timeout 600 sh ./build_and_run.sh > $1 2>&1); return $?; fi
+  (cd $D && timeout 600 $EXE ${DEMO_ARGS:-} > $1 2>&1); return $?
+}
 git -C $WT checkout -q -- . ; git -C $WT stash list >/dev/null
-build; (cd $D && timeout 300 /tmp/demo_$PID_$NAME > $OUT/demo_pristine.out 2>&1); rc_pristine=$?
+build; rundemo $OUT/demo_pristine.out; rc_pristine=$?
 git -C $WT apply $D/patch.diff || { echo "patch does not apply"; exit 3; }
-build; (cd $D && timeout 300 /tmp/demo_$PID_$NAME > $OUT/demo_patched.out 2>&1); rc_patched=$?
-(cd /verif && VF_REPO=$WT VF_JOBS=${VF_JOBS:-6} ./vf check $PID > $OUT/vf_check.out 2>&1); rc_vf=$?
+build; rundemo $OUT/demo_patched.out; rc_patched=$?
+if [ -z "${NOVF:-}" ]; then (cd /verif && VF_REPO=$WT VF_JOBS=${VF_JOBS:-6} ./vf check $PID > $OUT/vf_check.out 2>&1); rc_vf=$?; else rc_vf=$(python3 -c "import json;print(json.load(open('$OUT/meta.json'))['vf_check_exit'])" 2>/dev/null || echo -1); fi
 git -C $WT checkout -q -- .
 rc_station=skipped
 if [ -z "$NOST" ]; then /verif/tools/station.sh $D/patch.diff > $OUT/station.out 2>&1; rc_station=$?; fi
@@ -26,4 +36,4 @@ meta={"property":"$PID","name":"$NAME","demo_exit_pristine":$rc_pristine,"demo_e
 json.dump(meta,open("$OUT/meta.json","w"),indent=1)
 print(json.dumps({k:meta[k] for k in ("demo_exit_pristine","demo_exit_patched","pinned_tests_with_patch","vf_check_exit")}))
 EOF
-rm -f /tmp/demo_$PID_$NAME
+rm -f $EXE
